@@ -37,6 +37,27 @@ def make_files(ctx, count, small=False, kinds=None):
                 else:
                     xs.append(G.from_signed_val(dt, base + 100000 + rng.below(1 << 17)))
             cases.append({"dt": dt, "level": rng.choice([3, 3, 4]), "order": 0, "gcds": rng.below(2), "chunks": [xs], "kinds": ["wide-run"], "drain": 0})
+    # sibling chunks: consecutive chunks whose prefix tables agree in codes, bounds and jumpstarts but not in divisors
+    # (same [min, max] on different lattices, evenly spread so that low levels give one or two ranges), next to an exact
+    # repetition of a chunk: anything a decoder keeps from the previous chunk's table shows here
+    for _ in range(max(3, count // 10)):
+        dt = rng.choice([d for d in S.ALL_DT if C.DTYPES[d][2] != "bool"])
+        base = rng.choice([0, 7, 1000, 123456])
+        steps = rng.choice([(2, 1), (1, 2), (3, 1), (6, 4), (10, 5), (1, 7)])
+        m = rng.choice([2, 6, 12, 60])
+        span = steps[0] * steps[1] * m
+        def lattice(g, extra=0):
+            k = span // g
+            idx = list(range(k + 1))
+            if extra:
+                idx = idx + [rng.below(k + 1) for _ in range(extra)]
+                for i in range(len(idx) - 1, 0, -1):
+                    j = rng.below(i + 1)
+                    idx[i], idx[j] = idx[j], idx[i]
+            return [G.from_signed_val(dt, base + g * i) for i in idx]
+        a, b = lattice(steps[0], rng.choice([0, 3])), lattice(steps[1], rng.choice([0, 3]))
+        chunks = rng.choice([[a, b], [a, b, a], [b, a, b], [a, a, b], [a, lattice(steps[0] * steps[1]), b]])
+        cases.append({"dt": dt, "level": rng.choice([0, 0, 1, 2]), "order": 0, "gcds": 1, "chunks": chunks, "kinds": ["sibling"], "drain": 0})
     ans = C.harness([S.compress_line(c) for c in cases], timeout=600)
     files = []
     for c, a in zip(cases, ans):
